@@ -19,6 +19,7 @@ import (
 	cidlink "github.com/ipld/go-ipld-prime/linking/cid"
 	mh "github.com/multiformats/go-multihash"
 	"github.com/rpcpool/yellowstone-faithful/accum"
+	"github.com/rpcpool/yellowstone-faithful/compactindexsized"
 	"github.com/rpcpool/yellowstone-faithful/ipld/ipldbindcode"
 	"github.com/rpcpool/yellowstone-faithful/iplddecoders"
 	"github.com/rpcpool/yellowstone-faithful/third_party/solana_proto/confirmed_block"
@@ -41,6 +42,7 @@ type vfC14Case struct {
 	Hash     string // "crc", "fnv", "none"
 	Total    bool
 	Fault    string // "", "missing", "drop-link", "dup-link", "bitflip", "foreign", "swap"
+	NotFound bool   // a missing frame is reported by the getter with an error wrapping the index's ErrNotFound (as the real getter does) instead of a plain error
 	FaultA   int    // target frame (>=1)
 	FaultB   int    // second frame for swap
 	FlipBit  int
@@ -52,6 +54,8 @@ type vfC14Frames struct {
 	order   []cid.Cid         // continuation frames, children before parents
 	payload []byte
 	metaRaw []byte
+	// notFoundKind: see vfC14Case.NotFound
+	notFoundKind bool
 }
 
 func vfC14split(n uint64) func() uint64 {
@@ -208,6 +212,10 @@ func vfC14getter(fr *vfC14Frames, fetched *int) func(context.Context, cid.Cid) (
 	return func(_ context.Context, c cid.Cid) (*ipldbindcode.DataFrame, error) {
 		raw, ok := fr.raws[c.String()]
 		if !ok {
+			if fr.notFoundKind {
+				// what the real getter (Epoch.GetDataFrameByCid over the cid-to-offset index) returns for a missing object
+				return nil, fmt.Errorf("failed to find offset for CID %s: %w", c, compactindexsized.ErrNotFound)
+			}
 			return nil, fmt.Errorf("frame %s not available", c)
 		}
 		*fetched++
@@ -222,6 +230,7 @@ func vfC14eval(c *vfC14Case) error {
 		foreign = append(foreign, make([]byte, len(payload)-len(foreign))...)
 	}
 	fr := vfC14build(c, payload, foreign)
+	fr.notFoundKind = c.NotFound
 	judge := func(path string, got []byte, err error) error {
 		if c.Fault == "" {
 			if err != nil {
@@ -375,6 +384,7 @@ func vfC14gen(t *rapid.T) *vfC14Case {
 		c.FaultA = rapid.IntRange(lo, c.Frames-1).Draw(t, "faultA")
 		c.FaultB = rapid.IntRange(min(1, c.Frames-1), c.Frames-1).Draw(t, "faultB")
 		c.FlipBit = rapid.IntRange(0, 1<<20).Draw(t, "flipBit")
+		c.NotFound = rapid.Bool().Draw(t, "notFoundKind")
 	}
 	return c
 }
